@@ -47,6 +47,9 @@ func (core *JApiCore) buildUserTypes() *jerr.JApiError {
 				core.userTypes.Set(k, jschema.New(k, v.BodyCoords.Read()))
 			}
 		case notation.SchemaNotationRegex:
+			if !v.BodyCoords.IsSet() {
+				return // reported by AddType: "empty body"
+			}
 			var oo []regex.Option
 			if core.useFixedSeedForRegex {
 				oo = append(oo, regex.WithGeneratorSeed(0))
